@@ -382,7 +382,8 @@ func (g *Gen) number(a *MAmount) {
 	case "zero-int":
 		a.Notation = "point"
 		a.Num.Int = "0"
-		a.Num.Frac = digits(g.r, Pick(g.r, []int{1, 2, 4}), false)
+		// "0.125" is unambiguous (a group mark cannot follow a zero integer part)
+		a.Num.Frac = digits(g.r, Pick(g.r, []int{1, 2, 3, 3, 4}), false)
 	}
 }
 
